@@ -7,6 +7,7 @@ package main
 import (
 	"bufio"
 	"fmt"
+	"github.com/hneemann/parser2/example"
 	"os"
 	"os/exec"
 	"path/filepath"
@@ -71,7 +72,15 @@ func workerLeak(args []string) {
 					status = "panic"
 				}
 			}()
-			if f[2] == "gen" {
+			if f[2] == "gencomfort" {
+				// the comfort-mode float configuration of example/minimal.go (implicit multiplication)
+				mp := example.VerifMinimal()
+				for i := 0; i < reps; i++ {
+					if _, _, err := mp.Generate(f[3], "a", "b"); err != nil {
+						status = "generr"
+					}
+				}
+			} else if f[2] == "gen" {
 				for i := 0; i < reps; i++ {
 					_, _, err := fg.Generate(f[3], "a")
 					if err != nil {
@@ -188,6 +197,14 @@ func runC12(c *Ctx) {
 	}
 	add("parse-error-long-tail", "gen", "1 + + 2 "+strings.Repeat("+ 3 ", 400), reps/3)
 	add("parse-empty", "gen", "", reps)
+	// what follows the rejected token: runes that make the scanner emit more than one token per step (superscripts,
+	// implicit multiplication in comfort mode), literals, comments, operators - tight against the rejected token and apart
+	for _, tail := range []string{"²", "²+4", "³⁴", "2a", "(3+4)", "2(a)", "a(b)", "\"s\"", "'q'", "/*c*/ 1", "a.b", "<=", "->", "a²b³", "2a²", "²²²²", " ² ² ²", "1e3a", "a b", "(a)(b)"} {
+		for _, head := range []string{")", "1+)", "1+2*)", "a ) ", "]", "1 2"} {
+			add("parse-error-then:"+tail, "gen", head+tail, reps/2+1)
+			add("comfort-parse-error-then:"+tail, "gencomfort", head+tail, reps/2+1)
+		}
+	}
 	// --- evaluation: consumers that stop early, errors, completion
 	er := c.Pick(6, 40)
 	par := "numbers(100000).map(e -> slow(e))"
@@ -231,6 +248,10 @@ func runC12(c *Ctx) {
 	add("multiUse-complete", "eval", "numbers(50).multiUse({s: l -> l.sum(), n: l -> l.size()}).s", er*5)
 	add("multiUse-early-stop", "eval", "numbers(100000).multiUse({f: l -> l.first(), t: l -> l.top(3).size()}).f", er*5)
 	add("multiUse-consumer-error", "eval", "numbers(100000).multiUse({f: l -> l.map(e -> throw(\"x\")).sum(), t: l -> l.size()}).f", er*5)
+	add("multiUse-source-panics", "eval", "numbers(100).combine((p, q) -> if p = 5 then boom(p) else p).multiUse({f: l -> l.sum(), t: l -> l.size()}).f", er*5)
+	add("multiUse-source-panics-in-try", "eval", "try numbers(100).iir(e -> e, (e, l) -> if e = 5 then boom(e) else e + l).multiUse({f: l -> l.sum(), t: l -> l.size()}).f catch 0", er*5)
+	add("multiUse-source-stack-guard", "eval", "func deep(n) 1 + deep(n + 1); numbers(100).number((n, e) -> if e = 5 then deep(0) else e).multiUse({f: l -> l.sum(), t: l -> l.size()}).f", er*5)
+	add("merge-operand-panics", "eval", "numbers(100).combine((p, q) -> if p = 5 then boom(p) else p).merge(numbers(100), (p, q) -> p < q).size()", er*5)
 	add("multiUse-source-error", "eval", "numbers(100).map(e -> if e = 5 then throw(\"x\") else e).multiUse({f: l -> l.sum(), t: l -> l.size()}).f", er*5)
 	add("sequential-early-stop", "eval", "numbers(100000).map(e -> e + 1).accept(e -> e > 20).first()", er*20)
 
